@@ -4,6 +4,13 @@ MODULE = {
     "consts": {"ISO_3166_1_COUNTRIES_ALPHA_2": ("Opaque", "Obj"), "LANG_QUERY_KEYS": ("Opaque", "Obj")},
     "functions": {
         "strip_lang_subdomains_from_hostname": {
+            "types": {"hostname": "Str", "stripped": "Str"}, "returns": "Str",
+            # repeats the single-label removal while a label was removed: terminates (the hostname gets strictly shorter),
+            # never touches a hostname with at most one dot, raises nothing
+            "ensures": ["implies(old(hostname).count('.') <= 1, result == old(hostname))"],
+            "loops": {1: {"invariant": ["implies(old(hostname).count('.') <= 1, hostname == old(hostname))"], "decreases": "len(hostname)"}},
+        },
+        "strip_lang_subdomain_from_hostname": {
             "types": {"hostname": "Str", "subdomain": "Str", "remaining_hostname": "Str", "lang": "Str", "country": "Str"},
             "returns": "Str",
             # raises nothing: both two-target unpackings of split(sep, 1) are guarded by the presence of the separator
